@@ -18,7 +18,7 @@ use sos_vfs as vfs;
 use std::{
     collections::HashMap,
     io::{self, BufWriter, Write},
-    path::Path,
+    path::{Path, PathBuf},
 };
 use tempfile::NamedTempFile;
 use tokio::io::BufReader;
@@ -160,8 +160,15 @@ impl BackupImport {
                     file.file_name(),
                 );
                 let target = account_paths.into_file_path(file);
-                let blob_buffer =
-                    self.zip_reader.by_name(&entry_name).await?.unwrap();
+                let blob_buffer = self
+                    .zip_reader
+                    .by_name(&entry_name)
+                    .await?
+                    .ok_or_else(|| {
+                        Error::ArchiveFileNotExists(PathBuf::from(
+                            &entry_name,
+                        ))
+                    })?;
 
                 if let Some(parent) = target.parent() {
                     vfs::create_dir_all(parent).await?;
